@@ -833,6 +833,13 @@ enum Op {
     HasCap(usize, usize),
     Append(usize, Vec<usize>),
     Clip(usize, usize, usize),
+    /// `remove_axis(index)` / `insert_axis(index)` (DynLayout only: `ResizeLayout`)
+    RemoveAxis(usize),
+    InsertAxis(usize),
+    MoveAxis(usize, usize),
+    /// `Layout::size(dim)` / `Layout::stride(dim)`
+    Size(usize),
+    Stride(usize),
 }
 
 #[derive(Clone, Debug)]
@@ -854,6 +861,11 @@ fn fmt_gcase(c: &GCase) -> String {
             Op::HasCap(a, n) => format!("hc:{a},{n}"),
             Op::Append(a, sh) => format!("ap:{a}/{}", list(sh)),
             Op::Clip(d, s, e) => format!("cl:{d},{s},{e}"),
+            Op::RemoveAxis(i) => format!("ra:{i}"),
+            Op::InsertAxis(i) => format!("ia:{i}"),
+            Op::MoveAxis(f, t) => format!("mv:{f},{t}"),
+            Op::Size(d) => format!("sz:{d}"),
+            Op::Stride(d) => format!("sd:{d}"),
         })
         .collect();
     format!(
@@ -895,6 +907,14 @@ fn parse_gcase(line: &str) -> GCase {
                                 let (ax, sh) = arg.split_once('/').unwrap();
                                 Op::Append(ax.parse().unwrap(), parse_list(sh))
                             }
+                            "ra" => Op::RemoveAxis(arg.parse().unwrap()),
+                            "ia" => Op::InsertAxis(arg.parse().unwrap()),
+                            "mv" => {
+                                let a = parse_list(arg);
+                                Op::MoveAxis(a[0], a[1])
+                            }
+                            "sz" => Op::Size(arg.parse().unwrap()),
+                            "sd" => Op::Stride(arg.parse().unwrap()),
                             _ => {
                                 let a = parse_list(arg);
                                 Op::Clip(a[0], a[1], a[2])
@@ -909,8 +929,24 @@ fn parse_gcase(line: &str) -> GCase {
     c
 }
 
+/// `ResizeLayout` operations exist for `DynLayout` only.
+macro_rules! rz_dyn {
+    ($t:expr, $op:expr) => {
+        match $op {
+            Op::RemoveAxis(i) => Some(hcommon::catch(|| $t.remove_axis(*i)).is_ok()),
+            Op::InsertAxis(i) => Some(hcommon::catch(|| $t.insert_axis(*i)).is_ok()),
+            _ => None,
+        }
+    };
+}
+macro_rules! rz_nd {
+    ($t:expr, $op:expr) => {
+        None::<bool>
+    };
+}
+
 macro_rules! gen_grow_runner {
-    ($name:ident, $L:ty, $cv:ident) => {
+    ($name:ident, $L:ty, $cv:ident, $rz:ident) => {
         #[allow(unused_mut, unused_variables)]
         fn $name<const N: usize>(c: &GCase) -> (String, Option<String>) {
             let mut fail = Fail(None);
@@ -962,7 +998,26 @@ macro_rules! gen_grow_runner {
                         Ok(()) => format!("ok[{}]dl={}", list(&sizes(&t.shape())), t.storage_mut().len()),
                         Err(_) => "panic".into(),
                     },
+                    Op::RemoveAxis(_) | Op::InsertAxis(_) => match $rz!(t, op) {
+                        Some(true) => "ok".into(),
+                        Some(false) => "panic".into(),
+                        None => "n/a".into(),
+                    },
+                    Op::MoveAxis(f, to) => match hcommon::catch(|| t.move_axis(*f, *to)) {
+                        Ok(()) => "ok".into(),
+                        Err(_) => "panic".into(),
+                    },
+                    Op::Size(d) => match hcommon::catch(|| t.size(*d)) {
+                        Ok(x) => x.to_string(),
+                        Err(_) => "panic".into(),
+                    },
+                    Op::Stride(d) => match hcommon::catch(|| t.stride(*d)) {
+                        Ok(x) => x.to_string(),
+                        Err(_) => "panic".into(),
+                    },
                 };
+                // the layout as it is now (also after a panic): `<answer>@shape|strides`
+                let a = format!("{a}@{}|{}", list(&sizes(&t.shape())), list(&sizes(&t.strides())));
                 // oracle on the tensor as it is now
                 let dl = t.storage_mut().len();
                 if t.data_ptr() as usize != base {
@@ -1008,8 +1063,8 @@ macro_rules! gen_grow_runner {
     };
 }
 
-gen_grow_runner!(grow_dyn, DynLayout, cv_dyn);
-gen_grow_runner!(grow_nd, NdLayout<N>, cv_nd);
+gen_grow_runner!(grow_dyn, DynLayout, cv_dyn, rz_dyn);
+gen_grow_runner!(grow_nd, NdLayout<N>, cv_nd, rz_nd);
 
 fn run_gcase(c: &GCase) -> (String, Option<String>) {
     let r = hcommon::catch(|| {
@@ -1090,10 +1145,30 @@ fn gen_grow(rng: &mut Rng, ovf: bool, huge: bool) -> GCase {
     };
     let mut ops = vec![];
     let mut cur = shape.clone();
+    // an axis argument: usually valid, sometimes just past the end, inside the stride half of
+    // DynLayout's shape_and_strides array, past it, or near usize::MAX
+    let pick_axis = |rng: &mut Rng, rank: usize, prefer: Option<usize>| -> usize {
+        if rng.chance(1, 8) {
+            match rng.below(6) {
+                0 => rank,
+                1 => rank + rng.usize_below(rank.max(1)),
+                2 => 2 * rank,
+                3 => 2 * rank + 1,
+                4 => usize::MAX - rng.usize_below(2 * rank + 2),
+                _ => rank + 1,
+            }
+        } else {
+            match prefer {
+                Some(d) if d < rank && rng.chance(3, 4) => d,
+                _ => rng.usize_below(rank.max(1)),
+            }
+        }
+    };
     for _ in 0..1 + rng.usize_below(4) {
-        match rng.below(10) {
+        let rank = cur.len();
+        match rng.below(16) {
             0 | 1 | 2 => {
-                let axis = if rng.chance(1, 10) && nd { rank } else { rng.usize_below(rank) };
+                let axis = pick_axis(rng, rank, None);
                 let n = match rng.below(6) {
                     0 => huge_value(rng),
                     1 if huge => *rng.pick(&[3usize, 5, 9, 2, 4]),
@@ -1102,7 +1177,7 @@ fn gen_grow(rng: &mut Rng, ovf: bool, huge: bool) -> GCase {
                 ops.push(Op::HasCap(axis, n));
             }
             3 | 4 => {
-                let dim = if rng.chance(1, 12) && nd { rank } else { rng.usize_below(rank) };
+                let dim = pick_axis(rng, rank, None);
                 let size = cur.as_slice().get(dim).copied().unwrap_or(1).min(1 << 20);
                 let s = rng.usize_below(size + 1);
                 let e = if rng.chance(1, 8) { size + 1 } else { s + rng.usize_below(size - s + 1) };
@@ -1111,15 +1186,43 @@ fn gen_grow(rng: &mut Rng, ovf: bool, huge: bool) -> GCase {
                     cur[dim] = e - s;
                 }
             }
+            10 => {
+                let i = if rng.chance(1, 2) {
+                    cur.iter().position(|&x| x == 1).unwrap_or_else(|| pick_axis(rng, rank, None))
+                } else {
+                    pick_axis(rng, rank, None)
+                };
+                ops.push(Op::RemoveAxis(i));
+                if !nd && i < rank && cur[i] == 1 {
+                    cur.remove(i);
+                }
+            }
+            11 => {
+                let i = if rng.chance(1, 6) { rank + 1 + rng.usize_below(rank + 2) } else { rng.usize_below(rank + 1) };
+                ops.push(Op::InsertAxis(i));
+                if !nd && i <= rank && rank < 4 {
+                    cur.insert(i, 1);
+                }
+            }
+            12 => {
+                let f = pick_axis(rng, rank, None);
+                let t = pick_axis(rng, rank, None);
+                ops.push(Op::MoveAxis(f, t));
+                if f < rank && t < rank {
+                    let x = cur.remove(f);
+                    cur.insert(t, x);
+                }
+            }
+            13 => ops.push(if rng.chance(1, 2) { Op::Size(pick_axis(rng, rank, None)) } else { Op::Stride(pick_axis(rng, rank, None)) }),
             _ => {
-                let axis = if rng.chance(1, 12) && nd { rank } else if rng.chance(3, 4) { d } else { rng.usize_below(rank) };
+                let axis = pick_axis(rng, rank, Some(d));
                 let mut other = cur.clone();
                 let k = if huge { *rng.pick(&[2usize, 3, 4, 5, 8, 9, 1]) } else { rng.usize_below(4) };
                 if axis < rank {
                     other[axis] = k;
                 }
                 match rng.below(16) {
-                    0 => {
+                    0 if rank > 0 => {
                         let j = rng.usize_below(rank);
                         other[j] += 1;
                     }
@@ -1148,6 +1251,8 @@ fn gcase_danger(c: &GCase) -> bool {
             Op::HasCap(_, n) => *n > T,
             Op::Append(_, sh) => big(sh),
             Op::Clip(_, s, e) => *s > T || *e > T,
+            Op::RemoveAxis(i) | Op::InsertAxis(i) | Op::Size(i) | Op::Stride(i) => *i > T,
+            Op::MoveAxis(f, t) => *f > T || *t > T,
         })
 }
 
@@ -1799,6 +1904,13 @@ fn main() {
             ops: vec![Op::HasCap(0, TWO63 + 1), Op::HasCap(0, 2), Op::HasCap(0, 3)],
         });
     }
+    // audit H1: DynLayout axis arguments that index the stride half of shape_and_strides
+    for nd in [false, true] {
+        gcases.push(GCase { ovf, nd, shape: vec![2, 3], strides: None, len: 6, cap: 6, ops: vec![Op::Clip(2, 0, 1)] });
+        gcases.push(GCase { ovf, nd, shape: vec![1, 3, 2], strides: Some(vec![6, 1, 3]), len: 6, cap: 6, ops: vec![Op::RemoveAxis(4)] });
+        gcases.push(GCase { ovf, nd, shape: vec![2, 3], strides: None, len: 6, cap: 6, ops: vec![Op::InsertAxis(3)] });
+        gcases.push(GCase { ovf, nd, shape: vec![2, 3], strides: None, len: 6, cap: 12, ops: vec![Op::Size(2), Op::Stride(2), Op::Stride(usize::MAX), Op::HasCap(3, 2), Op::Append(2, vec![2, 3]), Op::MoveAxis(0, 2)] });
+    }
     let (n_grow, n_grow_huge) = if args.thorough { (200_000, 40_000) } else { (20_000, 4_000) };
     for _ in 0..n_grow {
         gcases.push(gen_grow(&mut rng, ovf, false));
@@ -1835,7 +1947,20 @@ fn main() {
                 Op::HasCap(..) => "op_has_capacity",
                 Op::Append(..) => "op_append",
                 Op::Clip(..) => "op_clip_dim",
+                Op::RemoveAxis(..) => "op_remove_axis",
+                Op::InsertAxis(..) => "op_insert_axis",
+                Op::MoveAxis(..) => "op_move_axis",
+                Op::Size(..) | Op::Stride(..) => "op_size_stride",
             });
+            let rank = c.shape.len();
+            let oob_axis = match o {
+                Op::HasCap(a, _) | Op::Append(a, _) | Op::Clip(a, _, _) | Op::RemoveAxis(a) | Op::Size(a) | Op::Stride(a) => *a >= rank,
+                Op::InsertAxis(a) => *a > rank,
+                Op::MoveAxis(f, t) => *f >= rank || *t >= rank,
+            };
+            if oob_axis {
+                out.bucket(if c.nd { "op_axis_out_of_range_nd" } else { "op_axis_out_of_range_dyn" });
+            }
         }
         for a in ans.split(' ') {
             if a.starts_with("ok[") {
@@ -1851,5 +1976,5 @@ fn main() {
         w.kill();
     }
     out.note(&format!("child-process crashes observed: {crashes}"));
-    out.finish("random API programs on rten-tensor: constructor (try_from_data, from_data, from_data_with_strides, from_slice_with_strides, from_storage_and_layout after resize_dim, from_shape; NdLayout rank 1-4 and DynLayout rank 0-4) with small shapes (contiguous, permuted, stepped, broadcast, perturbed, arbitrary strides; exact, short, long storage) and huge/overflowing shapes and strides (products wrapping to small numbers, (size-1)*stride wrapping, zero dims mixed with huge dims), followed by probes get/get_mut/Index/IndexMut (in and out of bounds), split_at(_mut), slice_axis(_mut), try_broadcast (incl. huge targets), iter(_mut), try_slice / try_slice_mut with indices and step-1 ranges in every spelling (negative, open, empty, in-bounds reversed, out of bounds; static-rank and dynamic paths; an exhaustive start/end sweep on small tensors) whose result views are checked for storage containment, storage length >= ideal min_data_len and in-storage indexing; plus programs on owned tensors with spare capacity (contiguous / gapped / huge-stride layouts with an empty or unit growth axis): has_capacity (small and huge sizes), append of zero-stride views (matching, mismatching, huge), clip_dim, with the no-alias / in-storage oracle re-evaluated after every operation including panicking ones; non-trivial = accepted, rank>=2, no empty dim, some dim>1, at least one probe; distinct by request text");
+    out.finish("random API programs on rten-tensor: constructor (try_from_data, from_data, from_data_with_strides, from_slice_with_strides, from_storage_and_layout after resize_dim, from_shape; NdLayout rank 1-4 and DynLayout rank 0-4) with small shapes (contiguous, permuted, stepped, broadcast, perturbed, arbitrary strides; exact, short, long storage) and huge/overflowing shapes and strides (products wrapping to small numbers, (size-1)*stride wrapping, zero dims mixed with huge dims), followed by probes get/get_mut/Index/IndexMut (in and out of bounds), split_at(_mut), slice_axis(_mut), try_broadcast (incl. huge targets), iter(_mut), try_slice / try_slice_mut with indices and step-1 ranges in every spelling (negative, open, empty, in-bounds reversed, out of bounds; static-rank and dynamic paths; an exhaustive start/end sweep on small tensors) whose result views are checked for storage containment, storage length >= ideal min_data_len and in-storage indexing; plus programs on owned tensors with spare capacity (contiguous / gapped / huge-stride layouts with an empty or unit growth axis): has_capacity (small and huge sizes), append of zero-stride views (matching, mismatching, huge), clip_dim, remove_axis / insert_axis (DynLayout), move_axis, size / stride — each with valid axes and, for both layout kinds, axes past the rank (inside and beyond the stride half of DynLayout's array, near usize::MAX); every answer carries the layout as it is afterwards, with the no-alias / in-storage oracle re-evaluated after every operation including panicking ones; non-trivial = accepted, rank>=2, no empty dim, some dim>1, at least one probe; distinct by request text");
 }
